@@ -54,6 +54,20 @@ Theorem C07_qcow2_backing_chain :
 Proof. exact qcow2_chain_correct. Qed.
 Print Assumptions C07_qcow2_backing_chain.
 
+(* ... and over a base shorter than its overlays: zeros beyond the end of the base, overlay data there stays in place *)
+Theorem C07_qcow2_short_base_chain :
+  forall size (tops : list Model.Qcow2.image) (base : Model.Qcow2.image),
+  Forall (fun im => Proofs.Qcow2.wf_image im /\
+                    Spec.Qcow2.conformant (Model.Qcow2.spec_of im) (Model.Qcow2.size_of im) /\
+                    Model.Qcow2.size_of im = size) tops ->
+  Proofs.Qcow2.wf_image base -> Spec.Qcow2.conformant (Model.Qcow2.spec_of base) (Model.Qcow2.size_of base) ->
+  0 <= Model.Qcow2.size_of base <= size ->
+  let ls := map qcow2_layer tops ++ [clip_layer (Model.Qcow2.size_of base) (qcow2_layer base)] in
+  forall off n, 0 <= off -> 0 <= n -> off + n <= size ->
+  chain_read ls 0 off n = Ok (map (chain_src ls 0) (zseq off n)).
+Proof. exact qcow2_short_base_chain. Qed.
+Print Assumptions C07_qcow2_short_base_chain.
+
 (* VMDK delta links (hosted sparse / COWD / SE-sparse, compressed or not, any grain and table size, any
    table content): a chain of any depth, at sector granularity (the unit of VMDK.read_sectors) *)
 Theorem C07_vmdk_delta_chain :
